@@ -71,6 +71,63 @@ def quiet(f, *a, **k):
 
 # =========================================================================================== measurement seams
 
+FACTORY = {}       # class name -> callable used INSTEAD of the constructor (a live object, see `Live`)
+
+
+def mk(cls, params, **kw):
+    """construct the mechanism — or, inside `Live.installed()`, hand back the live object with its rng re-armed"""
+    name = cls if isinstance(cls, str) else cls.__name__
+    f = FACTORY.get(name)
+    if f is not None:
+        return f(**kw)
+    c = getattr(M, name)
+    return c(**params, **kw)
+
+
+class Live:
+    """ONE mechanism object that lives through a sequence construct -> use -> assign new parameters -> measure again.
+    Its rng is a scripted generator owned by the harness; `live(random_state=new)` copies the script of `new` into it
+    (the object keeps the generator it was constructed with: nothing private is touched)."""
+
+    def __init__(self, mech, params, warm):
+        self.mech = mech
+        if mech == "Staircase":
+            self.rng = seams.ScriptedRandomState(uniforms=warm["u"], geometrics=warm["g"])
+        else:
+            self.rng = seams.ScriptedSystemRandom(uniforms=warm["u"], bits=warm["bits"], normals=warm["n"])
+        self.obj = getattr(M, mech)(**params, random_state=self.rng)
+
+    def __call__(self, **kw):
+        new = kw.get("random_state")
+        if new is not None:
+            for a in ("u", "bits", "normals", "gammas", "g"):
+                if hasattr(self.rng, a):
+                    setattr(self.rng, a, list(getattr(new, a, [])))
+            for a in ("n_uniform", "n_bits", "n_normal", "n_gamma", "n_geom"):
+                if hasattr(self.rng, a):
+                    setattr(self.rng, a, 0)
+            if hasattr(new, "cycle"):
+                self.rng.cycle = new.cycle
+            self.rng.log = new.log          # the caller reads the log of the generator it passed in
+        return self.obj
+
+    def installed(self):
+        import contextlib
+
+        @contextlib.contextmanager
+        def cm():
+            old = FACTORY.get(self.mech)
+            FACTORY[self.mech] = self
+            try:
+                yield self
+            finally:
+                if old is None:
+                    FACTORY.pop(self.mech, None)
+                else:
+                    FACTORY[self.mech] = old
+        return cm()
+
+
 def lap_unit(us=UNIT_U):
     """the standard Laplace variate the library's own sampler function produces for these four uniforms (the real code's
     `Laplace._laplace_sampler`; falls back to the unit-parameter run `Laplace(1, 0, 1).randomise(0)`)"""
@@ -85,7 +142,7 @@ def measure_laplace_scale(cls, params, value=0.0, us=UNIT_U):
     """scale used by `randomise` = noise / (unit-parameter noise); for truncated/folded the uniforms are chosen so that
     the noisy value stays inside the domain.  Returns (scale, relative precision of the measurement)."""
     L0 = lap_unit(us)
-    m = cls(**params, random_state=seams.ScriptedSystemRandom(us))
+    m = mk(cls, params, random_state=seams.ScriptedSystemRandom(us))
     out = float(quiet(m.randomise, value))
     noise = out - value
     if L0 == 0:
@@ -132,8 +189,9 @@ def measure_inside(cls, params, lower, upper, expect):
 def measure_bounded_domain(params):
     """scale used by LaplaceBoundedDomain.randomise: (out - value) / L with an accepted first draw"""
     lo, hi = float(params["lower"]), float(params["upper"])
-    m0 = M.LaplaceBoundedDomain(**params)
-    stored = float(quiet(m0._find_scale))
+    m0 = mk("LaplaceBoundedDomain", params)
+    # the scale randomise will use: the cached one if the object already calibrated, else what it is about to calibrate
+    stored = float(m0._scale) if getattr(m0, "_scale", None) is not None else float(quiet(m0._find_scale))
     if not (stored > 0) or math.isinf(stored) or lo == hi:
         return stored, stored, 0.0
     if math.isinf(hi) and math.isinf(lo):
@@ -149,7 +207,7 @@ def measure_bounded_domain(params):
     if math.isinf(hi) and not math.isinf(lo):
         us = (us[0], 1.0 - 2 ** -53, 0.0, 0.5)      # cos(pi u2) = -1 -> L > 0
     L = lap_unit(us)                                # the standard Laplace variate for these uniforms
-    m = M.LaplaceBoundedDomain(**params, random_state=seams.ScriptedSystemRandom(us))
+    m = mk("LaplaceBoundedDomain", params, random_state=seams.ScriptedSystemRandom(us))
     out = float(quiet(m.randomise, v))
     noise = out - v
     if noise == 0:
@@ -160,14 +218,14 @@ def measure_bounded_domain(params):
 
 def measure_gauss_sigma(cls, params):
     rng = seams.ScriptedSystemRandom(normals=[1.0, 1.0])
-    m = cls(**params, random_state=rng)
+    m = mk(cls, params, random_state=rng)
     out = float(quiet(m.randomise, 0.0))
     unit = (1.0 + 1.0) / float(np.sqrt(2))
     return out / unit, float(m._scale)
 
 
 def measure_uniform(params):
-    m = M.Uniform(**params, random_state=seams.ScriptedSystemRandom([0.0]))
+    m = mk("Uniform", params, random_state=seams.ScriptedSystemRandom([0.0]))
     return -float(quiet(m.randomise, 0.0))
 
 
@@ -175,7 +233,7 @@ def measure_bounded_noise(params):
     """(scale, bound) stored after the first randomise + (scale measured from the output, acceptance probes)"""
     us = small_uniforms(4e-4)
     L0 = lap_unit(us)
-    m = M.LaplaceBoundedNoise(**params, random_state=seams.ScriptedSystemRandom(us))
+    m = mk("LaplaceBoundedNoise", params, random_state=seams.ScriptedSystemRandom(us))
     out = float(quiet(m.randomise, 0.0))
     scale_m = out / L0 if L0 != 0 else float("nan")
     return float(m._scale), float(m._noise_bound), scale_m
@@ -191,7 +249,7 @@ def bounded_noise_accepts(params, ratio):
     # second batch (2 samples): the array is reshaped (4, 2): [u1a u1b][u2a u2b][u3a u3b][u4a u4b]
     us2 = (small[0], small[0], 0.0, 0.0, 0.0, 0.0, 0.5, 0.5)
     L1 = lap_unit(us1)
-    m = M.LaplaceBoundedNoise(**params, random_state=seams.ScriptedSystemRandom(us1 + us2))
+    m = mk("LaplaceBoundedNoise", params, random_state=seams.ScriptedSystemRandom(us1 + us2))
     out = float(quiet(m.randomise, 0.0))
     sc = float(m._scale)
     return abs(out - sc * L1) <= 1e-12 * abs(sc * L1), abs(L1)
@@ -199,7 +257,7 @@ def bounded_noise_accepts(params, ratio):
 
 def staircase_run(params, u_sign, g, u_unif, u_bin):
     rng = seams.ScriptedRandomState(uniforms=[u_sign, u_unif, u_bin], geometrics=[g])
-    m = M.Staircase(**params, random_state=rng)
+    m = mk("Staircase", params, random_state=rng)
     out = float(quiet(m.randomise, 0.0))
     p = [e[1] for e in rng.log if e[0] == "geometric"]
     return out, (p[0] if p else float("nan")), float(m.gamma)
@@ -387,6 +445,13 @@ def close(a, b, rel=1e-9, abs_=0.0):
 def report(ctx, pt, sig, kind, measured, allowed, extra):
     what = (f"{pt.mech}({', '.join(f'{k}={v!r}' for k, v in pt.params.items())}): {kind} = {fmt(measured)} exceeds the allowed "
             f"{fmt(allowed)} with the calibrated parameter {pt.meas!r}; {extra}")
+    if isinstance(pt.note, dict) and "live" in pt.note:
+        # the same parameters on a FRESH object satisfy the property: the live object kept a calibration made for the
+        # parameters it had before the assignment
+        sig = f"C02:{pt.mech}:stale-calibration"
+        what = (f"live object: {pt.mech}({pt.note['live']['constructed_with']}) -> {pt.note['live']['warm_up']} -> assign "
+                f"{pt.note['live']['assigned']} -> randomise still uses the old calibration: " + what)
+        extra = {"case": extra_json(extra), "live": pt.note["live"]}
     n = ctx.counters.get("sig:" + sig, 0)
     ctx.count("sig:" + sig)
     if n < 5:       # the runner keeps 200 violations in all: repetitions must not crowd out a different signature
@@ -860,7 +925,7 @@ def dg_gen(r, budget_sigma=250.0):
 
 
 def dg_measure(pt):
-    m = quiet(M.GaussianDiscrete, **pt.params)
+    m = quiet(mk, "GaussianDiscrete", pt.params)
     pt.meas = {"sigma": float(m._scale)}
 
 
@@ -916,7 +981,7 @@ def sn_gen(r):
 
 
 def sn_measure(pt):
-    m = M.Snapping(**pt.params)
+    m = mk("Snapping", pt.params)
     pt.meas = {"eff": float(m.effective_epsilon()), "bound": float(m._bound)}
 
 
